@@ -21,6 +21,7 @@
 //              p:<name>=<expr>      top-level parameter (expression)      n:<name>=<decimal>  number parameter
 //              r:<name>=<content>   in-memory resource (import/include/document(): looked up by the last path segment)
 //              o:full=1             append the whole error text and output to the reply
+//              o:strip=<1|2>        leave code units equal to 'x' out of the output hash (the outpos family compares across pad lengths)
 //              o:cap=<MB>           cap of the counting manager for this request      o:fresh=1  see checks/c03.py
 //        reply: rc=<rc> stage=<compile|parse|transform|-> err=<strlen(getLastError())> okerr=<error length after an rc 0 stage>
 //               exc=<-|type of an exception that escaped the entry point> out=<len>,<hash>
@@ -461,6 +462,7 @@ void runTrx(const std::vector<std::string>& f, TrResult& r, std::string* fullErr
     MemResolver resolver;
     std::string entry = "stream";
     bool fresh = false;
+    int stripUnit = 0;      // o:strip=<1|2>: code units equal to 'x' (1 or 2 bytes wide, little endian) are left out of the output hash
     std::vector<std::pair<std::string, std::string> > params, nparams;
     for (size_t i = 3; i < f.size(); ++i)
     {
@@ -468,6 +470,7 @@ void runTrx(const std::vector<std::string>& f, TrResult& r, std::string* fullErr
         if (a.size() < 3 || a[1] != ':') continue;
         if (a[0] == 'e') { entry = a.substr(2); continue; }
         if (a == "o:fresh=1") { fresh = true; continue; }
+        if (a.compare(0, 8, "o:strip=") == 0) { stripUnit = atoi(a.c_str() + 8); continue; }
         if (a.compare(0, 6, "o:cap=") == 0) { g_mm.cap = size_t(atoi(a.c_str() + 6)) << 20; continue; }
         size_t e = a.find('=');
         if (e == std::string::npos) continue;
@@ -657,7 +660,18 @@ void runTrx(const std::vector<std::string>& f, TrResult& r, std::string* fullErr
     r.errlen = rc != 0 ? err.size() : 0;
     r.okerr = okerr;
     r.outlen = out.size();
-    r.outhash = fnv(out);
+    if (stripUnit == 1 || stripUnit == 2)
+    {
+        std::string kept;
+        for (size_t i = 0; i + stripUnit <= out.size(); i += stripUnit)
+        {
+            const bool isx = out[i] == 'x' && (stripUnit == 1 || out[i + 1] == 0);
+            if (!isx) kept.append(out, i, stripUnit);
+        }
+        r.outhash = fnv(kept);
+    }
+    else
+        r.outhash = fnv(out);
     // "reached the library": allocations made for this request (counting manager; whole heap growth for the C API)
     r.allocs = capi ? (heapNow() != hc0 || !out.empty() || rc != 0 ? 1 : 0) : g_mm.count - c0;
     setz(r.msg, sizeof r.msg, head(err));
